@@ -50,6 +50,10 @@ def cases(tier, seed):
     for m in ms:
         for b in bs:
             yield dict(kind='lattice', m=round(m, 6), b=round(b, 6))
+    # intercepts below the stated interval (one RFI unit worth less than one MEF unit: a dim bead kit at high gain)
+    for m in ms[::2]:
+        for b in (-2.0, -0.6):
+            yield dict(kind='lattice', m=round(m, 6), b=b)
     # the same lattice shifted off every round number (slopes and intercepts with four and more decimals)
     for m in ms[:-1]:
         for b in bs[:-1]:
